@@ -135,7 +135,7 @@ class entry_point:
         _ENTRY["how"] = self.old
 
 
-def parse_sections(sections, how):
+def parse_sections(sections, how, indent="  "):
     """[(tag, body lines)] -> Chart, every section through its own public entry point."""
     load_impl()
     from chartparse.chart import Chart
@@ -143,7 +143,7 @@ def parse_sections(sections, how):
     from chartparse.instrument import Difficulty, Instrument, InstrumentTrack
     from chartparse.metadata import Metadata
     from chartparse.sync import SyncTrack
-    body = {t: ["  " + ln for ln in b] for t, b in sections}
+    body = {t: [indent + ln for ln in b] for t, b in sections}
     track_level = how.startswith("track-level:")
     if track_level:
         how = how.split(":", 1)[1]
@@ -520,3 +520,45 @@ def judge_block_alignment(ctx, prop, kinds, straddle_events=False):
         x = by_id[rid]
         ctx.violation(clause, {"kind": "blocks", "layout": x["layout"], "first_difference": x["first_difference"]},
                       key=clause + "|" + x["layout"]["section"])
+
+
+# Two-character (and longer) sequences that some syntax or other treats as an escape, a comment or a delimiter: inside a quoted
+# value or a word they are text.
+ESCAPE_LIKE = ['\\"', "\\\\", "\\n", "\\t", "\\", "//", "/*", "*/", "#", ";", "--", "&quot;", "&amp;", "%22", "%", '""', "''", "\\u0041", "\\x41", "${", "`",
+               "<!--", "-->", "|", "\\'", "^", "~", "@", "!", "?", "(", ")", "<", ">", ",", ":", "."]
+
+
+def huge_length_records(prop):
+    """Sustain lengths that only differ by multiples of 2^61 - 1 (the modulus of CPython's integer hash), of 2^32, 2^64: the same
+    lane shapes first with small lengths, then with the huge ones.  Far too large for TLC's integers: a digest record (BlocksV)."""
+    load_impl()
+    M = 2**61 - 1
+    recs = []
+    for name, big in (("2^61-1", M), ("2*(2^61-1)", 2 * M), ("2^32", 2**32), ("2^64", 2**64), ("2^63", 2**63)):
+        body, expected, t = [], [], 0
+        shapes = [[(0, 5)], [(0, 96), (1, 48)], [(2, 7), (3, 7), (4, 0)], [(7, 9)], [(1, 1), (2, 1)]]
+        for add in (0, big, 0, 2 * big if big < 2**62 else big):
+            for shape in shapes:
+                t += 1000
+                lens = [(ix, ln + (add if k == 0 else 0)) for k, (ix, ln) in enumerate(shape)]
+                body += [f"{t} = N {ix} {ln}" for ix, ln in lens]
+                vals = {ix: ln for ix, ln in lens}
+                lanes = [ix for ix in vals if ix < 5]
+                longest = max(vals.values())
+                if 7 in vals or len(set(vals[ix] for ix in lanes)) == 1:
+                    su = vals[7] if 7 in vals else vals[lanes[0]]
+                else:
+                    su = [vals.get(j) for j in range(5)]
+                expected.append([t, su, longest, t + longest])
+        text = chart_text(res=96000000, sync=["0 = TS 4", "0 = B 120000", "2500 = B 90000"], tracks={"ExpertSingle": body})
+        kind, val = outcome(text)
+        if kind == "raise":
+            got = ["raised", type(val).__name__]
+        else:
+            tr = [x for _, dd in val.instrument_tracks.items() for _, x in dd.items()][0]
+            got = [[int(e.tick), (int(e.sustain) if isinstance(e.sustain, int) else [None if x is None else int(x) for x in e.sustain]),
+                    int(e.longest_sustain), int(e.end_tick)] for e in tr.note_events]
+        recs.append({"id": f"huge-lengths-{name}", "props": [prop], "kind": "blocks", "what": "sustains-as-written-for-lengths-congruent-modulo-" + name,
+                     "a": json_digest(expected), "b": json_digest(got), "first_difference": first_difference(expected, got),
+                     "layout": {"family": "huge lengths", "modulus": name}})
+    return recs
